@@ -386,7 +386,7 @@ def run(ctx):
     # pending/C18-int-max-str-digits.diff (which the model describes) and the unpatched parser differ;
     # until the fix is applied they are only generated with VERIF_C18_BIGNUM=1.
     import re as _re0
-    BIG = os.environ.get('VERIF_C18_BIGNUM') == '1'
+    BIG = os.environ.get('VERIF_C18_BIGNUM', '1') == '1'
     longrun = lambda ls: any(len(x) > 100 for l in ls for x in _re0.findall('[0-9]+', l))
     nbig = sum(1 for it in items if longrun(it['lines']))
     if not BIG:
